@@ -823,11 +823,13 @@ FINISH:
 	// Finally, re-take the lock, mark sent and remove any entries from our
 	// message that we've decided to cancel at the last minute.
 	mq.wllock.Lock()
+	var dropped bool
 	for i, e := range peerEntries[:sentPeerEntries] {
 		if !mq.peerWants.markSent(e) {
 			// It changed.
 			mq.msg.Remove(e.Cid)
 			peerEntries[i].Cid = cid.Undef
+			dropped = true
 		}
 	}
 
@@ -835,6 +837,27 @@ FINISH:
 		if !mq.bcstWants.markSent(e) {
 			mq.msg.Remove(e.Cid)
 			bcstEntries[i].Cid = cid.Undef
+			dropped = true
+		}
+	}
+
+	if dropped {
+		// A CID that is both a peer want and a broadcast want is a single
+		// entry of the message. Removing it because one of the two changed
+		// must not lose the other one, which has been marked as sent.
+		for _, e := range peerEntries[:sentPeerEntries] {
+			if e.Cid.Defined() {
+				mq.msg.AddEntry(e.Cid, e.Priority, e.WantType, true)
+			}
+		}
+		for _, e := range bcstEntries[:sentBcstEntries] {
+			if e.Cid.Defined() {
+				wantType := pb.Message_Wantlist_Have
+				if !supportsHave {
+					wantType = pb.Message_Wantlist_Block
+				}
+				mq.msg.AddEntry(e.Cid, e.Priority, wantType, false)
+			}
 		}
 	}
 
